@@ -135,6 +135,13 @@ AppendBlk(k) ==
                                    owns |-> Append(toks[t].owns, blks[k].own), sealed |-> FALSE, bl |-> b.bl])
     /\ Log([op |-> "append", k |-> k]) /\ UNCHANGED <<bbs, blks>>
 
+\* a block built for ANOTHER token that declares a symbol the target's table already holds is refused by Append: nothing changes.
+\* (Other cross appends -- disjoint tables -- are outside the model: the block's indexes are relative to the token it was built for.)
+CrossAppendRefused(k, t) ==
+    /\ t # blks[k].tok
+    /\ \E i \in 1..Len(blks[k].own), j \in 1..toks[t].sl.n : blks[k].own[i] = Cell(arrays, toks[t].sl, j)
+    /\ Log([op |-> "xappend", k |-> k, t |-> t]) /\ UNCHANGED <<arrays, toks, bbs, blks>>
+
 GetBlockID(t, s) ==
     /\ \E c \in CloneSet(arrays, toks[t].sl) : \E r \in InsertSet(c.A, c.sl, s) : arrays' = r.A
     /\ Log([op |-> "getblockid", t |-> t, s |-> s]) /\ UNCHANGED <<toks, bbs, blks>>
@@ -163,7 +170,7 @@ Reload(t) ==
 Step == \/ \E t \in 1..Len(toks) : CreateBlock(t) \/ (~Lite /\ (Seal(t) \/ Reload(t) \/ \E s \in 1..NSyms : GetBlockID(t, s)))
         \/ \E b \in 1..Len(bbs) : BuildBlock(b) \/ BuildRoot(b) \/ \E s \in 1..NSyms : AddFact(b, s)
         \/ (RootBuilders /\ NewBuilder)
-        \/ \E k \in 1..Len(blks) : AppendBlk(k)
+        \/ \E k \in 1..Len(blks) : AppendBlk(k) \/ (~Lite /\ \E t \in 1..Len(toks) : CrossAppendRefused(k, t))
 Next == /\ Len(hist) < MaxOps
         /\ Step
 Spec == Init /\ [][Next]_vars
